@@ -896,6 +896,72 @@ def i_request_body(I, args, ins):
     return p
 
 
+# ---- outgoing requests: http.NewRequestWithContext + a client whose reply the harness fixes (verifHTTPClient)
+
+@stub('net/http.NewRequestWithContext', 'net/http.NewRequest')
+def http_new_request(I, args, ins):
+    ctx = I.ctx
+    if len(args) == 4:
+        cx, method, rawurl, body = args
+    else:
+        cx, (method, rawurl, body) = None, args
+    r = url_parse(I, [rawurl], ins)
+    if ctx.force(r[1]) is not None:
+        return TupleV((None, r[1]))
+    p = i_request(I, [method, rawurl, None, NIL_SLICE], ins)
+    req = ctx.load(p)
+    ctx.store_(p, req.with_field(I.prog.field_index(HTTPREQ, 'Body'), ctx.force(body)))
+    if cx is not None:
+        _req_ghost(I, p)['ctx'] = ctx.force(cx)
+    return TupleV((p, None))
+
+
+HTTPRESP = 'net/http.Response'
+
+
+@intrinsic('verifHTTPClient')
+def i_http_client(I, args, ins):
+    """verifHTTPClient(fail, status, body): a client whose every Do fails, or answers with that status and body."""
+    ctx = I.ctx
+    p = ctx.alloc(I.prog.zero('net/http.Client'), 'httpclient')
+    ctx.ghost.setdefault('httpclients', {})[p.cell] = {'fail': args[0], 'status': args[1], 'body': ctx.force(args[2]), 'calls': []}
+    return p
+
+
+@stub('(*net/http.Client).Do')
+def http_client_do(I, args, ins):
+    ctx = I.ctx
+    c = ctx.force(args[0])
+    if c is None:
+        raise GoPanic('nil-deref', ctx.cur_pos)
+    g = ctx.ghost.get('httpclients', {}).get(c.cell)
+    if g is None:
+        raise Inconclusive('http.Client.Do on a client the harness did not provide')
+    g['calls'].append(ctx.force(args[1]))
+    ctx.event('http.Do')
+    if ctx.branch(g['fail']):
+        return TupleV((None, ctx.new_error('http', msg='connection refused')))
+    b = ctx.alloc(StructV([]), 'body')
+    ctx.ghost.setdefault('readers', {})[b.cell] = ('bytes', g['body'])
+    resp = I.prog.zero(HTTPRESP)
+    for name, val in (('StatusCode', g['status']), ('Status', 'status'), ('Body', Iface('*verif.body', b)),
+                      ('Header', MapRef(ctx.new_cell((), 'header')))):
+        resp = resp.with_field(I.prog.field_index(HTTPRESP, name), val)
+    return TupleV((ctx.alloc(resp, 'response'), None))
+
+
+@intrinsic('verifHTTPCalls')
+def i_http_calls(I, args, ins):
+    g = I.ctx.ghost.get('httpclients', {}).get(I.ctx.force(args[0]).cell)
+    return len(g['calls'])
+
+
+@stub('io.LimitReader')
+def io_limit_reader(I, args, ins):
+    # contents handed to the harness's client are far below any limit the code sets
+    return args[0]
+
+
 @stub('(*net/http.Request).SetPathValue')
 def req_setpathvalue(I, args, ins):
     g = _req_ghost(I, args[0])
